@@ -57,7 +57,10 @@ def parse(trace):
                         t, v = tv.split(':', 1)
                         comps[int(t)] = v
                 d['compmap'] = comps
-                cur.ents[w[2]] = d
+                k = w[2]
+                while k in cur.ents:          # several entities may print the same ident (duplicates of one uuid)
+                    k += '#'
+                cur.ents[k] = d
             continue
         if w[0] == 'PEERS':
             n = int(w[1])
